@@ -1,4 +1,5 @@
 import PhononModel.Model.Grid
+import PhononModel.Model.GridBZ
 import PhononModel.Model.Wire
 open PhononModel PhononModel.Wire PhononModel.Grid
 
@@ -90,6 +91,24 @@ def handle (line : String) : String :=
       match extractIr t.toList with
       | none => pure "none"
       | some (ir, w) => pure (showNatL ir ++ " | " ++ showNatL w)
+    | "bz" =>
+      -- bz L(9, row major) T(9) tolf n q(3n)  ->  per q: point shift dmin tol nshort, separated by ';'
+      let (l, c) ← c.rats? 9
+      let (t, c) ← c.ints? 9
+      let (tolf, c) ← c.rat?
+      let (n, c) ← c.nat?
+      let (qs, c) ← c.rats? (3 * n)
+      if !c.atEnd then none
+      let L : Q33 := ⟨⟨l[0]!, l[1]!, l[2]!⟩, ⟨l[3]!, l[4]!, l[5]!⟩, ⟨l[6]!, l[7]!, l[8]!⟩⟩
+      let T : M3 := ⟨⟨t[0]!, t[1]!, t[2]!⟩, ⟨t[3]!, t[4]!, t[5]!⟩, ⟨t[6]!, t[7]!, t[8]!⟩⟩
+      let outs := (List.range n).map fun k =>
+        match bzRelocate L T tolf ⟨qs[3*k]!, qs[3*k+1]!, qs[3*k+2]!⟩ with
+        | .error .notUnimodular => "err-not-unimodular"
+        | .error .empty => "err-empty"
+        | .ok r => showRat r.point.x ++ " " ++ showRat r.point.y ++ " " ++ showRat r.point.z ++ " " ++
+            toString r.shift.x ++ " " ++ toString r.shift.y ++ " " ++ toString r.shift.z ++ " " ++
+            showRat r.dmin ++ " " ++ showRat r.tol ++ " " ++ toString r.nshort
+      pure (" ; ".intercalate outs)
     | "moment" =>
       -- moment order nq nb fmin fmax w(nq) freqs(nq*nb)
       let (order, c) ← c.nat?
